@@ -74,6 +74,25 @@ Theorem C16_close_returns_listener :
 Proof. exact close_returns_listener. Qed.
 Print Assumptions C16_close_returns_listener.
 
+(* Server.Close / a cancelled Server context with ANY number n of Listeners (delListener holds 16
+   names): the repaired shutdown finishes under the fair round-robin schedule, it is never
+   stuck (while it has not finished some thread can step) and every step lowers a measure, so
+   it finishes under every schedule that keeps picking a thread that can step. *)
+Theorem C16_server_close_returns_n :
+  forall n, ns_fin (ns_run New (ns_fair n) (ns_init n)) = true.
+Proof. exact server_close_returns_n. Qed.
+Print Assumptions C16_server_close_returns_n.
+
+Theorem C16_server_close_never_stuck :
+  forall s, ns_fin s = false -> exists t, In t (ns_threads (length (ns_ls s))) /\ ns_step New t s <> None.
+Proof. exact ns_no_deadlock. Qed.
+Print Assumptions C16_server_close_never_stuck.
+
+Theorem C16_server_close_steps_bounded :
+  forall m t s s', ns_step m t s = Some s' -> ns_mu s' < ns_mu s /\ length (ns_ls s') = length (ns_ls s).
+Proof. exact ns_step_mu. Qed.
+Print Assumptions C16_server_close_steps_bounded.
+
 (* ---- peer_notified ------------------------------------------------------------------------- *)
 (* a closed client whose server was reachable has sent SvShutdown in its last transmission *)
 Theorem C16_peer_notified_client :
@@ -165,6 +184,14 @@ Theorem C16_replace_history_example :
   end = true.
 Proof. exact replace_history_example. Qed.
 Print Assumptions C16_replace_history_example.
+
+(* 17 Listeners, the old shutdown: 16 names fill delListener, the 17th Listener blocks sending,
+   shutdown waits for it without taking a name: nobody can move; the repaired one is not stuck *)
+Theorem C16_many_listeners_refuted :
+  ns_stuck Old (ns_run Old sched_many_listeners (ns_init 17)) = true /\
+  ns_stuck New (ns_run New sched_many_listeners (ns_init 17)) = false.
+Proof. exact many_listeners_refuted. Qed.
+Print Assumptions C16_many_listeners_refuted.
 
 (* ---- non-vacuity --------------------------------------------------------------------------- *)
 (* three concurrent calls (client Close, server-side Close, context cancel) on a registered
